@@ -66,6 +66,11 @@ def run_structure(run, pid, kind, dialects, cfgs):
         nh = stmt.check_hooks(run, pid + ".R6", f, cfg, select=sel)
         run.floor(pid + ".R6", "hook-calls", nh, {"full": 10, "single": 8} if kind == "query" else 3, cfg)
         if kind == "schema":
+            for d in present:
+                if cfg != cfgs[0] and run.tier != "thorough":
+                    continue          # the table does not depend on the value-type features of `all`: once per quick run
+                npairs = coltypes.check_spec_pairs(run, pid + ".R3", f, cfg, d)
+                run.floor(pid + ".R3", "%s:spec-pairs" % d, npairs, 80, cfg)
             if "sqlite" in present:
                 nt = coltypes.check_sqlite(run, pid + ".R2", f, cfg)
                 run.floor(pid + ".R2", "sqlite:type-rows", nt, 40, cfg)
